@@ -190,6 +190,26 @@ def r11_7(prog: Program, rep: Report, rule="R11.7"):
 
     fr = prog.function("typelib.py.refs.forwardref")
     ref = ("param", fr.params[0])
+    # whoever in the reference module constructs a typing.ForwardRef names it by the whole qualified name of what it stands for:
+    # `__name__` (or inspection.name) of a parameter is the last component only -- the nested class Graph.Node would be
+    # referred to as 'Node', which names nothing, or another class, in its module
+    short = []
+    n_ctor = 0
+    for g in sorted(prog.functions.values(), key=lambda g: g.qualname):
+        if g.module != fr.module:
+            continue
+        try:
+            gps = P.paths_of(prog, g)
+        except Exception:
+            continue
+        for p in gps:
+            for tm in p.all_terms():
+                for x in T.walk(tm):
+                    if T.is_call_to(x, "typing.ForwardRef") and x[2]:
+                        n_ctor += 1
+                        if T.contains(x[2][0], lambda y: (y[0] == "attr" and y[2] == "__name__" and y[1][0] == "param") or (T.is_call_to(y, f"{C.INSP}.name") and y[2] and y[2][0][0] == "param")):
+                            short.append(g.qualname)
+    rep.check(bool(n_ctor) and not short, rule, "typelib.py.refs.ForwardRef", fr.loc, "no reference is named by the last component of a qualified name", f"{sorted(set(short))[:2]} name a typing.ForwardRef by `__name__` / name() of the object: a class nested in another (Graph.Node) is referred to as 'Node' -- NameError when the reference is evaluated, or every level below the first becomes a module-level class of that name", detail="reference-named-in-full")
     ok_name = ok_module = ok_flags = False
     why_name = why_mod = ""
     # the module qualifier is removed from the reference name as a *prefix* only
@@ -313,8 +333,14 @@ def r11_7(prog: Program, rep: Report, rule="R11.7"):
                 if s[0] == "sub" and s[1][0] == "call" and s[1][1][0] == "attr" and s[1][1][1] == rp and s[1][2][:1] == (("const", "."),):
                     if s[1][1][2] in ("split", "partition") and s[2] == ("const", 0):
                         first = True
+                    if s[1][1][2] in ("rsplit", "rpartition") and s[2] == ("const", 0):
+                        last = True
+                # the same through tuple unpacking: `module, _, name = ref.rpartition(".")`
+                if s[0] == "unpack" and s[2] == 0 and s[1][0] == "call" and s[1][1][0] == "attr" and s[1][1][1] == rp and s[1][2][:1] == (("const", "."),):
                     if s[1][1][2] in ("rsplit", "rpartition"):
                         last = True
+                    if s[1][1][2] in ("split", "partition"):
+                        first = True
     # ... and only when that text *is a name*: the first dot of 'list[decimal.Decimal]' or 'int | mod.X' is not a qualifier's
     head = lambda s: s[0] == "sub" and s[1][0] == "call" and s[1][1][0] == "attr" and s[1][1][1] == rp and s[1][1][2] in ("split", "partition") and s[2] == ("const", 0)  # noqa: E731
     text_exits = [p for p, r in P.returns(P.paths_of(prog, rm)) if head(r)]
